@@ -7,7 +7,10 @@ try inside try, try inside catch} x raise {none, depth 0, depth 2} x origin {rai
 raise subclass, VM error, native error} x catch filter {none, Error, subclass,
 non-matching class} x exit path {complete, break, continue, return} x late second error,
 followed by an epilogue that prints every parameter, local and result variable, declares
-and uses a new variable and optionally raises a second error after the try was left.
+and uses a new variable and optionally raises a second error after the try was left;
+plus the opcode-prefix family (vlib/spaces.py): one statement per stack-affecting construct
+of the language (47, singly and in all ordered pairs) before or inside a try that fires in
+a method of a subclass, the epilogue prints local, parameter, result and two fields.
 Oracle: reference evaluator (vlib/layref.py).
 """
 import itertools, time
@@ -120,6 +123,21 @@ def scenario(pl, nlocals, prefix, loop, nest, rdepth, origin, filt, exitp, late)
                          ["try", [["print", [S("ret2"), c]]], "eo", None, [err_print("outer2", "eo")]], ["print", [S("end")]]]
 
 
+def opc_expected(spec):
+    """expected output of vlib.spaces.opcode_prefix_source(spec): the epilogue prints [l0, p0, r, self.n, self.k]; only three prefixes touch self.k"""
+    from vlib import spaces
+    idx, in_try, rk = spec
+    k = 0
+    for i in idx:
+        p = spaces.OPCODE_PREFIXES[i]
+        if p == "self.k += 1;" or p == "self.k = self.k + 1;":
+            k += 1
+        elif p == "@k = 5;":
+            k = 5
+    r = {"none": "none+done", "vm": "none+caught:69", "raise": "none+caught:1", "deep": "none+caught:4"}[rk]
+    return "[1, 2, '%s', 1, %d]\n[1, 4, '%s', 3, %d]\n" % (r, k, r, k)
+
+
 class C04(Check):
     id = "C04"
     level = "exploration"
@@ -135,6 +153,9 @@ class C04(Check):
             space = itertools.chain(
                 itertools.product(PLACEMENTS, (0, 2), PREFIXES, LOOPS, ["single"], [None, 2], ["error", "vm"], [None, "OtherErr"], EXITS, (False, True)),
                 itertools.product(["fn1", "method1", "callback"], (2,), ["none", "send"], LOOPS, ["inner", "incatch"], RAISES, ORIGINS, FILTERS, EXITS, (True,)))
+        from vlib import spaces
+        for sp in spaces.opcode_prefix_specs(True):
+            yield ("opc", sp)
         for f in space:
             if f[5] is None and f[6] != ORIGINS[0] and not th:
                 continue
@@ -144,9 +165,15 @@ class C04(Check):
                 yield f
 
     def describe(self, spec):
+        if spec[0] == "opc":
+            from vlib import spaces
+            return "opcode-prefix %s: %s" % (spec[1], " ".join(spaces.OPCODE_PREFIXES[i] for i in spec[1][0])[:200])
         return "placement=%s locals=%d prefix=%s loop=%s nest=%s raise_depth=%s origin=%s filter=%s exit=%s late=%s" % spec
 
     def build(self, spec):
+        if spec[0] == "opc":
+            from vlib import spaces
+            return [{"src": spaces.opcode_prefix_source(spec[1]), "step_limit": 500000}], ("ok", opc_expected(spec[1]), None)
         stmts = scenario(*spec)
         src, _ = L.render(stmts)
         try:
@@ -168,6 +195,8 @@ class C04(Check):
         if not ok:
             return Verdict(False, True, "mismatch", "expected class=%s%s out=%r; got class=%s out=%r err=%r %s" % (
                 cls, "(%s)" % ecls if ecls else "", out, r.get("class"), r.get("out"), r.get("err", "")[-200:], r.get("panic") or ""))
+        if spec[0] == "opc":
+            return Verdict(True, spec[1][2] != "none", "opc:" + spec[1][2])
         return Verdict(True, spec[5] is not None or spec[9], "%s:%s" % (cls, "caught" if "+caught" in out else "other"))
 
 
